@@ -9,6 +9,13 @@ Structural rules on the normaliser ``_dump_ast_commutative``:
      the sort key is the whole dump of the term;
  D1d nothing else is reordered or rewritten (no other sort, no node constructors besides the refold);
  D1e the signature is the dump of the whole normalised tree without positions.
+
+Boundary rules on what the rest of the package does with a signature (``boundary_rules``; callers of the public
+signature function are found through the call graph / by name, wrappers included; decided on normal forms):
+ D2a every published signature sits under the name of the parameter whose expression it was computed from
+     (key and expression from the same item; sequences of names and signatures re-joined in the same order);
+ D3a the class attribute signatures are computed from is a private copy taken when the expressions were compiled;
+ D3b the function table an evaluator evaluates with is its own object: a shared table is never updated in place.
 """
 from __future__ import annotations
 
@@ -27,6 +34,7 @@ from ..engine import (
     dotted_name,
     kwarg,
     norm,
+    parent,
     qualname_of,
     stmt_of,
     walk_no_nested,
@@ -445,3 +453,734 @@ def run(repo: Repo, R: Report) -> None:
         v = r.value
         ok = isinstance(v, ast.Dict) and any(isinstance(k, ast.Constant) and k.value == "ast" and val in dumps for k, val in zip(v.keys, v.values))
         R.check(ok, r_sig, SEM, "normalize_expression_sig_v1", norm(r), "signature mapping does not carry the full canonical dump", r.lineno)
+
+    # ---- D2 / D3: what the package does with a signature (the boundary conditions of the normaliser) ----------
+    boundary_rules(repo, R, sigfn.name)
+
+
+# =============================================================================================================
+# D2 pairing: a published signature sits under the name of the parameter whose expression it was computed from
+# D3 one meaning per signature: the evaluated source is the published source; function names mean the same
+#    functions for every evaluator
+# =============================================================================================================
+
+ORDER_KEEPING = {"list", "tuple", "iter", "cast"}
+ORDER_CHANGING = {"sorted", "reversed", "set", "frozenset", "shuffle", "sample"}
+FRESH_CALLS = {"dict", "copy", "deepcopy", "OrderedDict", "MappingProxyType", "fromkeys"}
+
+
+def _u(e: ast.AST) -> str:
+    try:
+        return ast.unparse(e)
+    except Exception:  # pragma: no cover
+        return "<expr>"
+
+
+def _params(fn: ast.AST) -> Set[str]:
+    a = fn.args
+    out = {x.arg for x in a.args + a.kwonlyargs + a.posonlyargs}
+    if a.vararg:
+        out.add(a.vararg.arg)
+    if a.kwarg:
+        out.add(a.kwarg.arg)
+    return out
+
+
+def _defs_of(fn: ast.AST, name: str) -> List[ast.AST]:
+    """Right-hand sides bound to the local *name* by plain assignments (None when bound in any other way)."""
+    out: List[ast.AST] = []
+    for n in walk_no_nested(fn):
+        if isinstance(n, ast.Assign):
+            for t in n.targets:
+                if isinstance(t, ast.Name) and t.id == name:
+                    out.append(n.value)
+                elif isinstance(t, (ast.Tuple, ast.List)) and any(isinstance(x, ast.Name) and x.id == name for x in ast.walk(t)):
+                    out.append(None)
+        elif isinstance(n, ast.AnnAssign) and isinstance(n.target, ast.Name) and n.target.id == name and n.value is not None:
+            out.append(n.value)
+        elif isinstance(n, (ast.AugAssign, ast.NamedExpr)) and isinstance(n.target, ast.Name) and n.target.id == name:
+            out.append(None)
+    return out
+
+
+class _Stream:
+    """Elements of an iterable, described by the mapping they come from: (root text, component, re-ordering)."""
+
+    def __init__(self, root: str, comp: str, reorder: Optional[str] = None):
+        self.root, self.comp, self.reorder = root, comp, reorder
+
+    def but(self, **kw) -> "_Stream":
+        s = _Stream(self.root, self.comp, self.reorder)
+        for k, v in kw.items():
+            setattr(s, k, v)
+        return s
+
+
+def _peel(e: ast.AST) -> ast.AST:
+    while isinstance(e, ast.Call) and call_attr(e) in ORDER_KEEPING and e.args and not isinstance(e.func, ast.Attribute):
+        e = e.args[-1] if call_attr(e) == "cast" else e.args[0]
+    return e
+
+
+def _stream(fn: ast.AST, e: ast.AST, depth: int = 0) -> Optional[_Stream]:
+    """Stream descriptor of the iterable *e* (None: not understood)."""
+    if depth > 8 or e is None:
+        return None
+    e = _peel(e)
+    if isinstance(e, ast.BoolOp) and isinstance(e.op, ast.Or) and e.values:
+        return _stream(fn, e.values[0], depth + 1)
+    if isinstance(e, ast.Call):
+        nm = call_attr(e)
+        if isinstance(e.func, ast.Attribute) and nm in ("items", "keys", "values") and not e.args:
+            base = _stream(fn, e.func.value, depth + 1)
+            if base is None or base.comp != "key":
+                return None
+            return base.but(comp={"items": "item", "keys": "key", "values": "value"}[nm])
+        if nm in ORDER_CHANGING and e.args and not isinstance(e.func, ast.Attribute):
+            s = _stream(fn, e.args[0], depth + 1)
+            return s.but(reorder=f"{nm}()") if s else None
+        if nm == "map" and len(e.args) == 2:
+            return _stream(fn, e.args[1], depth + 1)
+        if nm == "getattr" or nm == "get":
+            return _Stream(_u(e), "key")
+        return None
+    if isinstance(e, (ast.ListComp, ast.GeneratorExp)):
+        if len(e.generators) != 1:
+            return None
+        g = e.generators[0]
+        s = _stream(fn, g.iter, depth + 1)
+        if s is None:
+            return None
+        if g.ifs:
+            s = s.but(reorder="a filter")
+        if s.comp == "item" and isinstance(g.target, ast.Tuple) and len(g.target.elts) == 2 and isinstance(e.elt, ast.Name):
+            k, v = g.target.elts
+            if isinstance(k, ast.Name) and e.elt.id == k.id:
+                return s.but(comp="key")
+            if isinstance(v, ast.Name) and e.elt.id == v.id:
+                return s.but(comp="value")
+        return s
+    if isinstance(e, ast.Subscript):
+        if isinstance(e.slice, ast.Slice):
+            s = _stream(fn, e.value, depth + 1)
+            return s.but(reorder="a slice") if s else None
+        return None
+    if isinstance(e, ast.Attribute):
+        return _Stream(_u(e), "key")
+    if isinstance(e, ast.Name):
+        defs = _defs_of(fn, e.id)
+        if len(defs) == 1 and defs[0] is not None:
+            d = defs[0]
+            grown = [c for c in calls_in(fn) if isinstance(c.func, ast.Attribute) and dotted_name(c.func.value) == e.id and c.func.attr in ("append", "extend", "insert", "sort", "reverse", "pop", "remove")]
+            if isinstance(d, ast.List) and not d.elts:
+                # filled by one unconditional append per step of one loop
+                if len(grown) == 1 and grown[0].func.attr == "append":
+                    st = stmt_of(grown[0])
+                    lp = parent(st)
+                    if isinstance(lp, ast.For) and any(st is x for x in lp.body) and not lp.orelse and not any(isinstance(x, (ast.Break, ast.Continue)) for x in ast.walk(lp)):
+                        return _stream(fn, lp.iter, depth + 1)
+                    if isinstance(lp, ast.For) or any(isinstance(a, ast.For) for a in ancestors(st)):
+                        lp2 = next(a for a in [lp] + list(ancestors(st)) if isinstance(a, ast.For))
+                        s = _stream(fn, lp2.iter, depth + 1)
+                        return s.but(reorder="a conditional append") if s else None
+                return None
+            if grown:
+                why = sorted({c.func.attr for c in grown})
+                s = _stream(fn, d, depth + 1)
+                return s.but(reorder=f".{why[0]}()") if s else None
+            s = _stream(fn, d, depth + 1)
+            if s is not None and not (isinstance(_peel(d), ast.Call) and call_attr(_peel(d)) in ("getattr", "get")):
+                return s
+            return _Stream(e.id, "key")
+        if not defs:
+            return _Stream(e.id, "key")
+        return None
+    return None
+
+
+class _Row:
+    """What a name bound by a loop / comprehension clause stands for."""
+
+    def __init__(self, binder: ast.AST, s: _Stream, same_item: bool):
+        self.binder, self.s, self.same_item = binder, s, same_item
+
+
+def _bind(fn: ast.AST, binder: ast.AST, target: ast.AST, it: ast.AST, env: Dict[str, _Row]) -> None:
+    core = it
+    # order-changing wrappers around an item stream keep key and value of one item together
+    while isinstance(core, ast.Call) and not isinstance(core.func, ast.Attribute) and call_attr(core) in ORDER_KEEPING | ORDER_CHANGING and core.args:
+        core = core.args[-1] if call_attr(core) == "cast" else core.args[0]
+    if isinstance(core, ast.Call) and call_attr(core) == "enumerate" and core.args and isinstance(target, ast.Tuple) and len(target.elts) == 2:
+        _bind(fn, binder, target.elts[1], core.args[0], env)
+        return
+    if isinstance(core, ast.Call) and call_attr(core) == "zip" and isinstance(target, ast.Tuple) and len(target.elts) == len(core.args) and core is it:
+        for t, a in zip(target.elts, core.args):
+            _bind(fn, binder, t, a, env)
+        return
+    s_core = _stream(fn, core)
+    if s_core is not None and s_core.comp == "item" and isinstance(target, ast.Tuple) and len(target.elts) == 2:
+        k, v = target.elts
+        s_full = _stream(fn, it) or s_core
+        if isinstance(k, ast.Name):
+            env[k.id] = _Row(binder, s_full.but(comp="key"), True)
+        if isinstance(v, ast.Name):
+            env[v.id] = _Row(binder, s_full.but(comp="value"), True)
+        return
+    s = _stream(fn, it)
+    if s is not None and isinstance(target, ast.Name):
+        env[target.id] = _Row(binder, s, False)
+
+
+def _env_at(fn: ast.AST, node: ast.AST) -> Dict[str, _Row]:
+    env: Dict[str, _Row] = {}
+    chain: List[ast.AST] = []
+    for a in ancestors(node):
+        if a is fn:
+            break
+        chain.append(a)
+    for a in reversed(chain):
+        if isinstance(a, ast.For):
+            _bind(fn, a, a.target, a.iter, env)
+        elif isinstance(a, (ast.ListComp, ast.SetComp, ast.GeneratorExp, ast.DictComp)):
+            for g in a.generators:
+                _bind(fn, a, g.target, g.iter, env)
+    return env
+
+
+def _pair_verdict(fn: ast.AST, key: ast.AST, val: ast.AST, at: ast.AST) -> Optional[str]:
+    """None: key and val provably belong to the same item (or nothing is known about val); else what is wrong."""
+    env = _env_at(fn, at)
+    k = key
+    while isinstance(k, ast.Call) and call_attr(k) in ("str", "cast") and k.args:
+        k = k.args[-1]
+    v = val
+    seen = 0
+    while isinstance(v, ast.Name) and v.id not in env and seen < 4:
+        d = _defs_of(fn, v.id)
+        if len(d) != 1 or d[0] is None:
+            break
+        v, seen = d[0], seen + 1
+    # looked up by key: M[k] / M.get(k)
+    look = None
+    if isinstance(v, ast.Subscript) and not isinstance(v.slice, ast.Slice):
+        look = (v.value, v.slice)
+    elif isinstance(v, ast.Call) and call_attr(v) == "get" and isinstance(v.func, ast.Attribute) and v.args:
+        look = (v.func.value, v.args[0])
+    if look is not None:
+        if isinstance(look[1], ast.Constant):
+            return None
+        return None if _u(look[1]) == _u(k) else f"the signature of `{_u(v)}` is stored under `{_u(key)}`"
+    if not (isinstance(v, ast.Name) and v.id in env):
+        return None
+    rv = env[v.id]
+    if not (isinstance(k, ast.Name) and k.id in env):
+        return f"the signature of an element of `{rv.s.root}` is stored under `{_u(key)}`, which is not the name bound together with it"
+    rk = env[k.id]
+    if rk.binder is not rv.binder:
+        return f"`{_u(key)}` and `{v.id}` are bound by different traversals"
+    if rk.s.root != rv.s.root:
+        return f"`{_u(key)}` runs over `{rk.s.root}` but the signature is that of an element of `{rv.s.root}`"
+    if rk.s.comp != "key":
+        return f"`{_u(key)}` is not the parameter name of the item"
+    if rk.same_item and rv.same_item:
+        return None
+    bad = rk.s.reorder or rv.s.reorder
+    if bad:
+        side = "names" if rk.s.reorder else "signatures"
+        return f"names and signatures are matched by position, but the {side} went through {bad}: a signature lands under another parameter's name"
+    return None
+
+
+def boundary_rules(repo: Repo, R: Report, sig_name: str) -> None:
+    from ..normal import nfunc
+
+    r_pair = R.rule("C12-D2a-pairing", "wherever the package publishes expression signatures per parameter, each signature sits under the name of the parameter whose expression it was computed from (key and expression come from the same item of the same mapping; names and signatures that travel in separate sequences are re-joined in the same order)", 2)
+    sig_names: Set[str] = {sig_name}
+    wrap_keys: Set[str] = set()
+    src_attrs: Set[str] = set()
+    verdicts: Dict[Tuple[str, str, int, str], Tuple[bool, str, str, int]] = {}
+
+    def normal(mod, qn, f):
+        try:
+            return nfunc(repo, mod.rel, qn, copyprop="all")
+        except AnalysisError:
+            raise
+        except Exception:
+            return f
+
+    def record(ok: bool, rel: str, qn: str, node: ast.AST, what: str) -> None:
+        st = stmt_of(node) if not isinstance(node, ast.stmt) else node
+        key = (rel, qn, getattr(node, "lineno", 0), norm(node))
+        verdicts[key] = (ok, norm(st), what, getattr(node, "lineno", 0))
+
+    def note_root(s: Optional[_Stream], fn: Optional[ast.AST] = None) -> None:
+        if s is None:
+            return
+        try:
+            t = ast.parse(s.root, mode="eval").body
+        except SyntaxError:
+            return
+        if isinstance(t, ast.Name) and fn is not None:
+            for d in _defs_of(fn, t.id):
+                if d is not None:
+                    note_root(_Stream(_u(d), "key"))
+        for n in ast.walk(t):
+            if isinstance(n, ast.Call) and call_attr(n) == "getattr" and len(n.args) >= 2 and isinstance(n.args[1], ast.Constant) and isinstance(n.args[1].value, str):
+                src_attrs.add(n.args[1].value)
+            elif isinstance(n, ast.Attribute) and n.attr.startswith("_"):
+                src_attrs.add(n.attr)
+
+    def zip_check(rel: str, qn: str, fn: ast.AST, z: ast.Call, idx: int, depth: int) -> bool:
+        """The sequence of signatures is argument *idx* of zip call *z*: names must be the other argument, in the same order."""
+        zz = z
+        outer, p = z, parent(z)
+        while isinstance(p, ast.Call) and call_attr(p) in ORDER_KEEPING and not isinstance(p.func, ast.Attribute):
+            outer, p = p, parent(p)
+        if isinstance(p, ast.Call) and call_attr(p) in ("dict", "OrderedDict") and not isinstance(p.func, ast.Attribute):
+            if len(zz.args) != 2 or idx != 1:
+                record(False, rel, qn, zz, "signatures are zipped into a mapping but not as its values")
+                return True
+            ks, vs = _stream(fn, zz.args[0]), _stream(fn, zz.args[1])
+            note_root(vs, fn)
+            if ks is None or vs is None:
+                record(False, rel, qn, zz, "names and signatures are matched by position and the order of one side is not known to follow the other")
+            elif ks.root != vs.root or ks.comp != "key":
+                record(False, rel, qn, zz, f"signatures of the elements of `{vs.root}` are matched by position with `{_u(zz.args[0])}`, which is not its sequence of names")
+            elif ks.reorder or vs.reorder:
+                side = "names" if ks.reorder else "signatures"
+                record(False, rel, qn, zz, f"names and signatures are matched by position, but the {side} went through {ks.reorder or vs.reorder}: a signature lands under another parameter's name (two sweeps with different values publish equal signatures)")
+            else:
+                record(True, rel, qn, zz, "")
+            return True
+        # zip(..) iterated by a loop / comprehension: follow the name bound at position idx
+        holder = p
+        tgt = None
+        if isinstance(holder, ast.For) and holder.iter is outer:
+            tgt = holder.target
+        elif isinstance(holder, ast.comprehension) and holder.iter is outer:
+            tgt = holder.target
+        if isinstance(tgt, ast.Tuple) and len(tgt.elts) > idx and isinstance(tgt.elts[idx], ast.Name):
+            nm = tgt.elts[idx].id
+            scope = holder if isinstance(holder, ast.For) else parent(holder)
+            found = False
+            for u in ast.walk(scope):
+                if isinstance(u, ast.Name) and u.id == nm and isinstance(u.ctx, ast.Load):
+                    found = follow(rel, qn, fn, u, u, depth + 1) or found
+            return found
+        return False
+
+    def seq_uses(rel: str, qn: str, fn: ast.AST, seq: ast.AST, depth: int) -> None:
+        """*seq* evaluates to a sequence of signatures without their names."""
+        p = parent(seq)
+        cur = seq
+        while isinstance(p, ast.Call) and call_attr(p) in ORDER_KEEPING and not isinstance(p.func, ast.Attribute):
+            cur, p = p, parent(p)
+        if isinstance(p, ast.Call) and call_attr(p) == "zip":
+            idx = next(i for i, a in enumerate(p.args) if a is cur)
+            if not zip_check(rel, qn, fn, p, idx, depth):
+                record(False, rel, qn, p, "signatures are matched with something by position and the pairing with their parameter names is not established")
+            return
+        if isinstance(p, (ast.Assign, ast.AnnAssign)):
+            tg = p.targets[0] if isinstance(p, ast.Assign) else p.target
+            if isinstance(tg, ast.Name):
+                list_uses(rel, qn, fn, tg.id, p, depth)
+                return
+        if isinstance(p, ast.Return):
+            if not fn.name.startswith("_"):
+                record(False, rel, qn, p, "signatures leave the function as a bare sequence, separated from their parameter names")
+            return
+        record(False, rel, qn, stmt_of(seq), "signatures are collected without their parameter names and the re-joining is not recognised")
+
+    def list_uses(rel: str, qn: str, fn: ast.AST, name: str, origin: ast.AST, depth: int) -> None:
+        joined = False
+        exported = False
+        for u in walk_no_nested(fn):
+            if isinstance(u, ast.Name) and u.id == name and isinstance(u.ctx, ast.Load):
+                p, cur = parent(u), u
+                while isinstance(p, ast.Call) and call_attr(p) in ORDER_KEEPING | ORDER_CHANGING and not isinstance(p.func, ast.Attribute):
+                    cur, p = p, parent(p)
+                if isinstance(p, ast.Call) and call_attr(p) == "zip":
+                    idx = next(i for i, a in enumerate(p.args) if a is cur)
+                    joined = zip_check(rel, qn, fn, p, idx, depth) or joined
+                elif isinstance(p, ast.Return):
+                    exported = True
+        if not joined:
+            if exported and fn.name.startswith("_"):
+                return
+            record(False, rel, qn, origin, "signatures are collected without their parameter names and never re-joined with them in a recognised way")
+
+    def follow(rel: str, qn: str, fn: ast.AST, node: ast.AST, src: ast.AST, depth: int = 0) -> bool:
+        """*node* evaluates to the signature of *src* (an expression, or a record holding it).  Climb to where it is
+        stored; True when a pairing obligation was decided."""
+        if depth > 6:
+            return False
+        p = parent(node)
+        if isinstance(p, ast.Dict):
+            i = next((i for i, v in enumerate(p.values) if v is node), None)
+            if i is None:
+                return False
+            k = p.keys[i]
+            if isinstance(k, ast.Constant):
+                if isinstance(k.value, str) and depth == 0:
+                    wrap_keys.add(k.value)
+                return follow(rel, qn, fn, p, src, depth)
+            if k is None:
+                return False
+            bad = _pair_verdict(fn, k, src, p)
+            record(bad is None, rel, qn, p, bad or "")
+            return True
+        if isinstance(p, ast.IfExp):
+            return follow(rel, qn, fn, p, src, depth) if node is not p.test else False
+        if isinstance(p, ast.DictComp):
+            if node is p.value:
+                bad = _pair_verdict(fn, p.key, src, node)
+                record(bad is None, rel, qn, p, bad or "")
+                return True
+            return False
+        if isinstance(p, ast.Tuple) and len(p.elts) == 2 and p.elts[1] is node and isinstance(p.ctx, ast.Load):
+            bad = _pair_verdict(fn, p.elts[0], src, node)
+            record(bad is None, rel, qn, p, bad or "")
+            return True
+        if isinstance(p, (ast.ListComp, ast.GeneratorExp, ast.SetComp)) and p.elt is node:
+            note_root(_stream(fn, p), fn)
+            seq_uses(rel, qn, fn, p, depth)
+            return True
+        if isinstance(p, ast.Call):
+            nm = call_attr(p)
+            if nm == "cast" and p.args and p.args[-1] is node:
+                return follow(rel, qn, fn, p, src, depth)
+            if isinstance(p.func, ast.Attribute) and nm in ("setdefault", "__setitem__") and len(p.args) == 2 and p.args[1] is node:
+                bad = _pair_verdict(fn, p.args[0], src, node)
+                record(bad is None, rel, qn, p, bad or "")
+                return True
+            if isinstance(p.func, ast.Attribute) and nm == "append" and p.args and p.args[0] is node and isinstance(p.func.value, ast.Name):
+                list_uses(rel, qn, fn, p.func.value.id, p, depth)
+                return True
+            return False
+        if isinstance(p, (ast.Assign, ast.AnnAssign)) and p.value is node:
+            tgts = p.targets if isinstance(p, ast.Assign) else [p.target]
+            done = False
+            for t in tgts:
+                if isinstance(t, ast.Subscript):
+                    bad = _pair_verdict(fn, t.slice, src, p)
+                    record(bad is None, rel, qn, p, bad or "")
+                    done = True
+                elif isinstance(t, ast.Name):
+                    for u in walk_no_nested(fn):
+                        if isinstance(u, ast.Name) and u.id == t.id and isinstance(u.ctx, ast.Load):
+                            done = follow(rel, qn, fn, u, src, depth + 1) or done
+            return done
+        return False
+
+    def is_wrapper(fn: ast.AST, call: ast.Call, src: ast.AST) -> bool:
+        if not (isinstance(src, ast.Name) and src.id in _params(fn) and not _defs_of(fn, src.id)):
+            return False
+        p, cur = parent(call), call
+        while isinstance(p, (ast.IfExp, ast.Dict)) or (isinstance(p, ast.Call) and call_attr(p) == "cast"):
+            cur, p = p, parent(p)
+        if isinstance(p, ast.Return):
+            return True
+        if isinstance(p, ast.Assign) and len(p.targets) == 1 and isinstance(p.targets[0], ast.Name):
+            nm = p.targets[0].id
+            return any(isinstance(r, ast.Return) and isinstance(r.value, ast.Name) and r.value.id == nm for r in walk_no_nested(fn))
+        return False
+
+    # candidates: functions that call a signature function (wrappers found on the way extend the set)
+    analysed: Set[Tuple[str, str]] = set()
+    for _round in range(3):
+        grew = False
+        cands: List[Tuple[object, str, ast.AST]] = []
+        for mod, qn, f in repo.all_functions():
+            if mod.rel.startswith("semantiva/examples/") or (mod.rel == SEM and f.name == sig_name):
+                continue
+            direct = [c for c in calls_in(f) if call_attr(c) in sig_names]
+            if direct:
+                cands.append((mod, qn, f))
+        # same-module callers of private candidates (the call appears in their normal form)
+        priv = {(m.rel, f.name) for m, _q, f in cands if f.name.startswith("_")}
+        for mod, qn, f in repo.all_functions():
+            if any((mod.rel, call_attr(c)) in priv for c in calls_in(f)) and not any(f is x for _m, _q, x in cands):
+                cands.append((mod, qn, f))
+        for mod, qn, f in cands:
+            repo.module(mod.rel)  # consulted
+            nf = normal(mod, qn, f)
+            for c in calls_in(nf):
+                if call_attr(c) not in sig_names or not (c.args or c.keywords):
+                    continue
+                src = c.args[0] if c.args else c.keywords[0].value
+                if is_wrapper(nf, c, src):
+                    if nf.name not in sig_names:
+                        sig_names.add(nf.name)
+                        grew = True
+                    continue
+                env = _env_at(nf, c)
+                if isinstance(src, ast.Name) and src.id in env:
+                    note_root(env[src.id].s, nf)
+                follow(mod.rel, qn, nf, c, src)
+            analysed.add((mod.rel, qn))
+        if not grew:
+            break
+    # records that carry a signature under a fixed key across a module boundary: readers of that key
+    for mod, qn, f in repo.all_functions():
+        if not wrap_keys or mod.rel not in {rel for rel, _ in analysed}:
+            continue
+        nf = None
+        for n in walk_no_nested(f):
+            hit = (isinstance(n, ast.Subscript) and isinstance(n.slice, ast.Constant) and n.slice.value in wrap_keys and isinstance(n.ctx, ast.Load)) or \
+                  (isinstance(n, ast.Call) and call_attr(n) == "get" and n.args and isinstance(n.args[0], ast.Constant) and n.args[0].value in wrap_keys)
+            if hit:
+                nf = normal(mod, qn, f)
+                break
+        if nf is None:
+            continue
+        for n in walk_no_nested(nf):
+            if isinstance(n, ast.Subscript) and isinstance(n.slice, ast.Constant) and n.slice.value in wrap_keys and isinstance(n.ctx, ast.Load):
+                follow(mod.rel, qn, nf, n, n.value, 1)
+            elif isinstance(n, ast.Call) and call_attr(n) == "get" and n.args and isinstance(n.args[0], ast.Constant) and n.args[0].value in wrap_keys and isinstance(n.func, ast.Attribute):
+                follow(mod.rel, qn, nf, n, n.func.value, 1)
+    for (rel, qn, _ln, _txt), (ok, st, what, line) in sorted(verdicts.items(), key=lambda kv: kv[0][:3]):
+        R.check(ok, r_pair, rel, qn, st, what, line)
+
+    snapshot_rule(repo, R, src_attrs)
+    evaluator_rule(repo, R)
+
+
+def _is_fresh(fn: Optional[ast.AST], e: Optional[ast.AST], depth: int = 0) -> Tuple[bool, str]:
+    """(True, "") when *e*, evaluated in *fn*, is an object nobody outside *fn* holds; else (False, what it may alias)."""
+    if e is None or depth > 8:
+        return False, "an unknown value"
+    if isinstance(e, (ast.Dict, ast.DictComp, ast.Constant, ast.List, ast.ListComp, ast.Tuple)):
+        return True, ""
+    if isinstance(e, ast.Call):
+        nm = call_attr(e)
+        if nm in ("dict", "OrderedDict", "copy", "deepcopy"):
+            return True, ""
+        if nm in ("cast", "MappingProxyType") and e.args:
+            return _is_fresh(fn, e.args[-1], depth + 1)
+        return False, f"the result of `{_u(e.func)}(..)`"
+    if isinstance(e, ast.BoolOp):
+        for v in e.values:
+            ok, why = _is_fresh(fn, v, depth + 1)
+            if not ok:
+                return ok, why
+        return True, ""
+    if isinstance(e, ast.IfExp):
+        for v in (e.body, e.orelse):
+            ok, why = _is_fresh(fn, v, depth + 1)
+            if not ok:
+                return ok, why
+        return True, ""
+    if isinstance(e, ast.Name) and fn is not None:
+        defs = _defs_of(fn, e.id)
+        if not defs:
+            if e.id in _params(fn):
+                return False, f"the caller's own object (parameter `{e.id}`)"
+            return False, f"`{e.id}`"
+        for d in defs:
+            ok, why = _is_fresh(fn, d, depth + 1)
+            if not ok:
+                return ok, why
+        return True, ""
+    return False, f"`{_u(e)}`"
+
+
+def _param_roots(fn: ast.AST, e: Optional[ast.AST], depth: int = 0) -> Set[str]:
+    """Parameters of *fn* that *e* is computed from (through local assignments)."""
+    out: Set[str] = set()
+    if e is None or depth > 6:
+        return out
+    ps = _params(fn)
+    for n in ast.walk(e):
+        if isinstance(n, ast.Name) and isinstance(n.ctx, ast.Load):
+            defs = _defs_of(fn, n.id)
+            if not defs and n.id in ps:
+                out.add(n.id)
+            for d in defs:
+                out |= _param_roots(fn, d, depth + 1)
+    return out
+
+
+MAKERS: List[Tuple[object, ast.AST]] = []
+
+
+def snapshot_rule(repo: Repo, R: Report, src_attrs: Set[str]) -> None:
+    r = R.rule("C12-D3a-snapshot", "a generated sweep class compiles its expressions when it is created and publishes signatures computed later from a class attribute: that attribute holds a private copy of the expression mapping taken at creation (not the caller's own mapping, whose later contents would be signed while the earlier ones are evaluated)", 1)
+    MAKERS.clear()
+    for mod, qn, c in repo.all_classes():
+        if mod.rel.startswith("semantiva/examples/"):
+            continue
+        maker = next((a for a in ancestors(c) if isinstance(a, FuncNode)), None)
+        for st in c.body:
+            if isinstance(st, ast.Assign) and len(st.targets) == 1 and isinstance(st.targets[0], ast.Name):
+                tname, val = st.targets[0].id, st.value
+            elif isinstance(st, ast.AnnAssign) and isinstance(st.target, ast.Name) and st.value is not None:
+                tname, val = st.target.id, st.value
+            else:
+                continue
+            if tname not in src_attrs or maker is None:
+                continue
+            repo.module(mod.rel)
+            roots = _param_roots(maker, val)
+            # a sibling attribute computed, at creation, by a call on the same parameter: the compiled side
+            compiled = False
+            for s2 in c.body:
+                v2 = s2.value if isinstance(s2, (ast.Assign, ast.AnnAssign)) else None
+                if s2 is st or v2 is None:
+                    continue
+                stack, seen = [v2], 0
+                while stack and seen < 12:
+                    x = stack.pop()
+                    seen += 1
+                    if isinstance(x, ast.Name):
+                        stack.extend(d for d in _defs_of(maker, x.id) if d is not None)
+                    elif isinstance(x, ast.Call) and not (call_attr(x) in ("dict", "set", "list", "tuple", "sorted", "frozenset")) and roots & _param_roots(maker, x):
+                        compiled = True
+            if not compiled:
+                continue
+            if not any(maker is m for _mm, m in MAKERS):
+                MAKERS.append((mod, maker))
+            ok, why = _is_fresh(maker, val)
+            R.check(ok, r, mod.rel, qualname_of(c), norm(st),
+                    f"the expression source the signatures are computed from is {why}: the expressions were compiled when the class was created, the signature is computed later from what the mapping holds then - after the caller re-uses or edits the mapping, sweeps that evaluate `a - b` and `b - a` publish the same signature", st.lineno)
+
+
+def evaluator_rule(repo: Repo, R: Report) -> None:
+    from ..normal import nfunc
+
+    r = R.rule("C12-D3b-functions", "the function names of an expression (abs/min/max/..) denote the same functions for every evaluator: the table an evaluator evaluates with is its own object; a table shared by all evaluators (module or class level) is never updated in place", 1)
+    if not MAKERS:
+        raise AnalysisError("sweep class makers not found (no generated class defines the signature source attribute)")
+    # the call graph is only used to *find* the evaluation sites; the files that decide the verdict are theirs
+    consulted_before = set(repo.consulted)
+    reach = repo.call_graph_closure([(m, f) for m, f in MAKERS], by_name_fallback=True)
+    repo.consulted.clear()
+    repo.consulted.update(consulted_before)
+    sites = []
+    seen_calls: Set[int] = set()
+    for m, f0, _p in reach.values():
+        if not isinstance(f0, FuncNode):
+            continue
+        for c in calls_in(f0, include_nested=True):
+            if call_name(c) in ("eval", "exec") and len(c.args) >= 2 and id(c) not in seen_calls:
+                seen_calls.add(id(c))
+                f = next(a for a in ancestors(c) if isinstance(a, FuncNode))
+                # the evaluated code is a compiled expression (not a file that is executed)
+                code, hops = c.args[0], 0
+                while isinstance(code, ast.Name) and hops < 4:
+                    ds = [d for fn2 in [f] + [a for a in ancestors(f) if isinstance(a, FuncNode)] for d in _defs_of(fn2, code.id) if d is not None]
+                    if len(ds) != 1:
+                        break
+                    code, hops = ds[0], hops + 1
+                if isinstance(code, ast.Call) and call_name(code) == "compile" or (isinstance(code, ast.Name) and any(code.id in _params(a) for a in [f] + [a for a in ancestors(f) if isinstance(a, FuncNode)])):
+                    repo.module(m.rel)
+                    sites.append((m, f, c))
+    if not sites:
+        raise AnalysisError("evaluation site (eval with an explicit globals table) not reachable from the sweep factory")
+    for m, f, c in sites:
+        g = c.args[1]
+        cls = next((a for a in ancestors(f) if isinstance(a, ast.ClassDef)), None)
+        mod_level = {t.id for st in m.tree.body if isinstance(st, (ast.Assign, ast.AnnAssign)) for t in (st.targets if isinstance(st, ast.Assign) else [st.target]) if isinstance(t, ast.Name)}
+        cls_level = set()
+        if cls is not None:
+            cls_level = {t.id for st in cls.body if isinstance(st, (ast.Assign, ast.AnnAssign)) for t in (st.targets if isinstance(st, ast.Assign) else [st.target]) if isinstance(t, ast.Name)}
+
+        def shared(fn: ast.AST, e: Optional[ast.AST], depth: int = 0) -> Optional[str]:
+            """Name of the module/class-level table *e* may be (not a copy of it)."""
+            if e is None or depth > 6:
+                return None
+            if isinstance(e, ast.Name):
+                defs = _defs_of(fn, e.id)
+                if not defs:
+                    return e.id if e.id in mod_level and e.id not in _params(fn) else None
+                for d in defs:
+                    s = shared(fn, d, depth + 1)
+                    if s:
+                        return s
+                return None
+            if isinstance(e, ast.Attribute) and e.attr in cls_level:
+                b = e.value
+                if isinstance(b, ast.Name) and (b.id in ("self", "cls") or (cls is not None and b.id == cls.name)):
+                    return _u(e)
+                if isinstance(b, ast.Call) and call_attr(b) == "type" or (isinstance(b, ast.Attribute) and b.attr == "__class__"):
+                    return _u(e)
+                return None
+            if isinstance(e, (ast.BoolOp,)):
+                for v in e.values:
+                    s = shared(fn, v, depth + 1)
+                    if s:
+                        return s
+            if isinstance(e, ast.IfExp):
+                return shared(fn, e.body, depth + 1) or shared(fn, e.orelse, depth + 1)
+            if isinstance(e, ast.Call) and call_attr(e) == "cast" and e.args:
+                return shared(fn, e.args[-1], depth + 1)
+            return None
+
+        # where the globals table comes from: an attribute of the evaluator (stores in its methods) or a local
+        owners: List[Tuple[ast.AST, ast.AST, ast.AST]] = []  # (function, store statement, value)
+        attr = g.attr if isinstance(g, ast.Attribute) and isinstance(g.value, ast.Name) and g.value.id == "self" else None
+        scope_fns = [n for n in (cls.body if cls is not None else []) if isinstance(n, FuncNode)]
+        if attr is not None:
+            for meth in scope_fns:
+                try:
+                    nm = nfunc(repo, m.rel, qualname_of(meth))
+                except AnalysisError:
+                    raise
+                except Exception:
+                    nm = meth
+                for st in walk_no_nested(nm):
+                    if isinstance(st, (ast.Assign, ast.AnnAssign)) and st.value is not None:
+                        for t in (st.targets if isinstance(st, ast.Assign) else [st.target]):
+                            if isinstance(t, ast.Attribute) and t.attr == attr and isinstance(t.value, ast.Name) and t.value.id == "self":
+                                owners.append((nm, st, st.value))
+        elif isinstance(g, ast.Name):
+            for fn2 in [f] + [a for a in ancestors(f) if isinstance(a, FuncNode)]:
+                for d in _defs_of(fn2, g.id):
+                    if d is not None:
+                        owners.append((fn2, stmt_of(d), d))
+        if not owners:
+            raise AnalysisError(f"{m.rel}:{qualname_of(f)}: where the globals table of `{norm(c)}` is created could not be told")
+        for fn2, st, val in owners:
+            sh = shared(fn2, val)
+            bad = None
+            if sh:
+                # names in fn2 that may be the shared table
+                aliases = {n.id for n in walk_no_nested(fn2) if isinstance(n, ast.Name) and shared(fn2, n) == sh}
+                muts = list(mutation_sites_of(fn2, aliases, sh))
+                if attr is not None:
+                    for meth in scope_fns:
+                        for n in walk_no_nested(meth):
+                            tg = None
+                            if isinstance(n, ast.Call) and isinstance(n.func, ast.Attribute) and n.func.attr in _MUT:
+                                tg = n.func.value
+                            elif isinstance(n, (ast.Assign, ast.AugAssign, ast.Delete)):
+                                for t in (n.targets if not isinstance(n, ast.AugAssign) else [n.target]):
+                                    if isinstance(t, ast.Subscript):
+                                        tg = t.value
+                            if isinstance(tg, ast.Attribute) and tg.attr == attr and isinstance(tg.value, ast.Name) and tg.value.id == "self":
+                                muts.append(n)
+                if muts:
+                    bad = muts[0]
+            R.check(bad is None, r, m.rel, qualname_of(f if attr is None else fn2), norm(st),
+                    f"the evaluator's function table is the shared table `{sh}` itself and `{norm(bad) if bad is not None else ''}` updates it in place: after one evaluator was built with overriding functions every evaluator computes abs/min/max/.. with them, so expressions with equal signatures (even the same expression) give different values", getattr(bad, "lineno", st.lineno) if bad is not None else st.lineno)
+
+
+_MUT = {"update", "setdefault", "pop", "popitem", "clear", "__setitem__", "__delitem__"}
+
+
+def mutation_sites_of(fn: ast.AST, aliases: Set[str], shared_text: str):
+    """Statements / calls of *fn* that change, in place, an object named by one of *aliases* or by *shared_text*."""
+    def hits(e: ast.AST) -> bool:
+        return (isinstance(e, ast.Name) and e.id in aliases) or _u(e) == shared_text
+
+    for n in walk_no_nested(fn):
+        if isinstance(n, ast.Call) and isinstance(n.func, ast.Attribute) and n.func.attr in _MUT and hits(n.func.value):
+            yield n
+        elif isinstance(n, (ast.Assign, ast.Delete)):
+            for t in n.targets:
+                if isinstance(t, ast.Subscript) and hits(t.value):
+                    yield n
+        elif isinstance(n, ast.AugAssign):
+            if isinstance(n.target, ast.Subscript) and hits(n.target.value):
+                yield n
+            elif isinstance(n.op, ast.BitOr) and hits(n.target):
+                yield n
